@@ -1,4 +1,329 @@
+// eng_state.rs — C16: the read side of storage faults.  Real writers put rule histories and
+// file-state tables on the simulated disk (short writes), faults are applied to the stored
+// bytes (strict prefixes, bit flips, garbage), real readers read them back (short reads).
+
 use super::*;
-pub fn run_one(_cfg : &Config, _seed : u64, _k : u64, _stats : &mut Stats) -> Vec<Found> { vec![] }
-pub fn replay_bytes(_kind : &str, _bytes : &Vec<u8>, _expect_reject : bool, _read_chunk : u32) -> Vec<(String, String)> { vec![] }
-pub fn replay_round_trip(_kind : &str, _seed : u64) -> Vec<(String, String)> { vec![] }
+use std::panic::{self, AssertUnwindSafe};
+
+use crate::blob::{FileState, FileStateVec};
+use crate::current::CurrentFileStates;
+use crate::history::{History, RuleHistory};
+use crate::ticket::{Ticket, TicketFactory};
+use super::super::simsys::{World, SimSystem};
+use super::super::scen::RULER_DIR;
+
+const HDIR : &str = "hist";
+const TABLE : &str = "table";
+
+fn ticket(rng : &mut Rng) -> Ticket
+{
+    TicketFactory::from_str(&format!("t{}", rng.next())).result()
+}
+
+fn world(read_chunk : usize, write_chunk : usize) -> World
+{
+    let mut k = Knobs::default();
+    k.read_chunk = read_chunk;
+    k.write_chunk = write_chunk;
+    let w = World::new(k, RULER_DIR);
+    w.user_mkdir(HDIR);
+    w
+}
+
+// ---- instances
+
+struct HistInstance
+{
+    rule : Ticket,
+    keys : Vec<Ticket>,
+    value : RuleHistory,
+}
+
+fn gen_history(rng : &mut Rng) -> HistInstance
+{
+    let n = match rng.below(6) { 0 => 0, 1 => 1, 2 => rng.range(2, 5), _ => rng.range(0, 50) };
+    let mut rh = RuleHistory::new();
+    let mut keys = vec![];
+    let n_targets = rng.range(1, 8);
+    for _ in 0..n
+    {
+        let k = ticket(rng);
+        let v = FileStateVec::from_ticket_vec((0..n_targets).map(|_| ticket(rng)).collect());
+        rh.insert(k.clone(), v).unwrap();
+        keys.push(k);
+    }
+    HistInstance{ rule : ticket(rng), keys : keys, value : rh }
+}
+
+struct TableInstance
+{
+    entries : Vec<(String, FileState)>,
+}
+
+fn gen_path(rng : &mut Rng) -> String
+{
+    match rng.below(6)
+    {
+        0 => format!("out/{}.o", rng.below(1000)),
+        1 => format!("d\u{e9}p\u{f4}t/\u{6587}\u{4ef6}{}", rng.below(1000)),
+        2 => format!("{}/{}", "long".repeat(rng.range(1, 40)), rng.below(1000)),
+        3 => format!("with space {}", rng.below(1000)),
+        _ => format!("t{}", rng.below(100000)),
+    }
+}
+
+fn gen_table(rng : &mut Rng) -> TableInstance
+{
+    let n = match rng.below(6) { 0 => 0, 1 => 1, 2 => rng.range(2, 5), _ => rng.range(0, 50) };
+    let mut entries : BTreeMap<String, FileState> = BTreeMap::new();
+    for _ in 0..n
+    {
+        let ts = match rng.below(4) { 0 => 0, 1 => u64::MAX, 2 => rng.next(), _ => 1_000_000 + rng.below(1_000_000) };
+        entries.insert(gen_path(rng), FileState{ ticket : ticket(rng), timestamp : ts, executable : rng.chance(1, 2) });
+    }
+    TableInstance{ entries : entries.into_iter().collect() }
+}
+
+// ---- write with the real writers, read with the real readers
+
+fn write_history(w : &World, inst : &HistInstance) -> Result<Vec<u8>, String>
+{
+    let mut h = History::new(w.system(), HDIR);
+    h.write_rule_history(inst.rule.clone(), inst.value.clone()).map_err(|e| format!("{}", e))?;
+    let path = format!("{}/{}", HDIR, inst.rule);
+    w.read(&path).map(|a| (*a).clone()).ok_or("history file missing after write".to_string())
+}
+
+fn read_history(w : &World, rule : &Ticket) -> Result<RuleHistory, String>
+{
+    let h : History<SimSystem> = History::new(w.system(), HDIR);
+    h.read_rule_history(rule).map_err(|e| format!("{}", e))
+}
+
+fn write_table(w : &World, inst : &TableInstance) -> Result<Vec<u8>, String>
+{
+    let mut t = CurrentFileStates::from_file(w.system(), TABLE.to_string()).map_err(|e| format!("{}", e))?;
+    for (p, s) in inst.entries.iter()
+    {
+        t.insert_file_state(p.clone(), s.clone());
+    }
+    t.to_file().map_err(|e| format!("{}", e))?;
+    w.read(TABLE).map(|a| (*a).clone()).ok_or("table file missing after write".to_string())
+}
+
+/* read the table and project it on `paths` */
+fn read_table(w : &World, paths : &[String]) -> Result<Vec<(String, FileState)>, String>
+{
+    let mut t = CurrentFileStates::from_file(w.system(), TABLE.to_string()).map_err(|e| format!("{}", e))?;
+    let blob = t.take_blob(paths.to_vec());
+    Ok(blob.get_file_infos().into_iter().map(|i| (i.path, i.file_state)).collect())
+}
+
+#[derive(Debug, PartialEq)]
+enum ReadOutcome
+{
+    Rejected,
+    AcceptedSame,
+    AcceptedDifferent,
+    Panicked(String),
+}
+
+fn read_back(kind : &str, w : &World, bytes : &[u8], hist : Option<&HistInstance>, table : Option<&TableInstance>, rule_for_garbage : &Ticket) -> ReadOutcome
+{
+    let r = panic::catch_unwind(AssertUnwindSafe(||
+    {
+        if kind == "history"
+        {
+            let rule = hist.map(|h| h.rule.clone()).unwrap_or(rule_for_garbage.clone());
+            w.user_write(&format!("{}/{}", HDIR, rule), bytes);
+            match read_history(w, &rule)
+            {
+                Err(_) => ReadOutcome::Rejected,
+                Ok(v) => match hist
+                {
+                    Some(h) if v == h.value && h.keys.iter().all(|k| v.get_file_state_vec(k) == h.value.get_file_state_vec(k)) => ReadOutcome::AcceptedSame,
+                    _ => ReadOutcome::AcceptedDifferent,
+                },
+            }
+        }
+        else
+        {
+            w.user_write(TABLE, bytes);
+            let paths : Vec<String> = table.map(|t| t.entries.iter().map(|(p, _)| p.clone()).collect()).unwrap_or(vec![]);
+            match read_table(w, &paths)
+            {
+                Err(_) => ReadOutcome::Rejected,
+                Ok(v) => match table
+                {
+                    Some(t) if v == t.entries => ReadOutcome::AcceptedSame,
+                    _ => ReadOutcome::AcceptedDifferent,
+                },
+            }
+        }
+    }));
+    match r
+    {
+        Ok(o) => o,
+        Err(p) =>
+        {
+            let msg = if let Some(s) = p.downcast_ref::<&str>() { s.to_string() } else if let Some(s) = p.downcast_ref::<String>() { s.clone() } else { "?".to_string() };
+            ReadOutcome::Panicked(msg)
+        },
+    }
+}
+
+fn size_class(n : usize) -> &'static str
+{
+    if n <= 8 { "empty" } else if n <= 400 { "small" } else { "large" }
+}
+
+fn pos_class(pos : usize, len : usize) -> &'static str
+{
+    if pos < 8 { "length-prefix" } else if pos < 72 { "first-entry" } else if pos + 16 >= len { "tail" } else { "middle" }
+}
+
+fn found(sig : String, detail : String, explain : J, replay : Replay) -> Found
+{
+    Found{ prop : "C16".to_string(), sig : sig, detail : detail, explain : explain, replay : replay }
+}
+
+pub fn replay_bytes(kind : &str, bytes : &Vec<u8>, expect_reject : bool, read_chunk : u32) -> Vec<(String, String)>
+{
+    let w = world(read_chunk as usize, 0);
+    let rule = TicketFactory::from_str("replay").result();
+    let o = read_back(kind, &w, bytes, None, None, &rule);
+    let mut out = vec![];
+    match o
+    {
+        ReadOutcome::Panicked(m) => out.push((format!("C16:panic:{}", kind), format!("reading {} bytes of {} panicked: {}", bytes.len(), kind, m))),
+        ReadOutcome::Rejected => {},
+        _ => if expect_reject { out.push((format!("C16:strict-prefix-accepted:{}", kind), format!("a strict prefix ({} bytes) of a valid {} file was accepted", bytes.len(), kind))); },
+    }
+    out
+}
+
+pub fn replay_round_trip(kind : &str, seed : u64) -> Vec<(String, String)>
+{
+    let mut stats = Stats::new();
+    one_instance(kind, seed, false, &mut stats).into_iter().map(|f| (f.sig, f.detail)).collect()
+}
+
+fn one_instance(kind : &str, seed : u64, with_faults : bool, stats : &mut Stats) -> Vec<Found>
+{
+    let mut out = vec![];
+    let mut rng = Rng::new(seed);
+    let read_chunk = *rng.pick(&[0usize, 1, 7, 255, 256, 257]);
+    let write_chunk = *rng.pick(&[0usize, 1, 3, 16, 64]);
+    let w = world(read_chunk, write_chunk);
+    let garbage_rule = TicketFactory::from_str("garbage").result();
+
+    let (hist, table) = if kind == "history" { (Some(gen_history(&mut rng)), None) } else { (None, Some(gen_table(&mut rng))) };
+    let written = match (&hist, &table)
+    {
+        (Some(h), _) => write_history(&w, h),
+        (_, Some(t)) => write_table(&w, t),
+        _ => unreachable!(),
+    };
+    let bytes = match written
+    {
+        Ok(b) => b,
+        Err(e) =>
+        {
+            out.push(found(format!("C16:write-failed:{}", kind), format!("the real writer failed on the simulated disk: {}", e),
+                J::obj().set("kind", J::s(kind)).set("seed", J::Str(format!("{}", seed))), Replay::StateRoundTrip{ kind : kind.to_string(), seed : seed }));
+            return out;
+        },
+    };
+    let entries = hist.as_ref().map(|h| h.keys.len()).or(table.as_ref().map(|t| t.entries.len())).unwrap_or(0);
+    let mut cell = |fault : &str, pos : &str, outcome : &ReadOutcome, stats : &mut Stats|
+    {
+        let o = match outcome { ReadOutcome::Rejected => "rejected", ReadOutcome::AcceptedSame => "same", ReadOutcome::AcceptedDifferent => "different", ReadOutcome::Panicked(_) => "panic" };
+        stats.distinct.insert(H64::new().str(kind).str(size_class(bytes.len())).str(fault).str(pos).str(o).get());
+        stats.inc("evaluations");
+    };
+
+    // no fault: exact round trip
+    let o = read_back(kind, &w, &bytes, hist.as_ref(), table.as_ref(), &garbage_rule);
+    cell("none", "-", &o, stats);
+    stats.inc("c16.round_trips");
+    if o != ReadOutcome::AcceptedSame
+    {
+        out.push(found(format!("C16:round-trip-differs:{}", kind), format!("{} with {} entries ({} bytes) written by the real writer was read back as {:?}", kind, entries, bytes.len(), o),
+            J::obj().set("kind", J::s(kind)).set("seed", J::Str(format!("{}", seed))).set("bytes", J::Str(hex(&bytes))), Replay::StateRoundTrip{ kind : kind.to_string(), seed : seed }));
+    }
+    if !with_faults
+    {
+        return out;
+    }
+
+    // every strict prefix must be rejected
+    for n in 0..bytes.len()
+    {
+        let o = read_back(kind, &w, &bytes[..n], hist.as_ref(), table.as_ref(), &garbage_rule);
+        cell("prefix", pos_class(n, bytes.len()), &o, stats);
+        stats.inc("fault.truncated_state_file");
+        match &o
+        {
+            ReadOutcome::Rejected => {},
+            ReadOutcome::Panicked(m) => { if !out.iter().any(|f| f.sig.starts_with("C16:panic")) { out.push(found(format!("C16:panic:{}", kind), format!("reading a {}-byte prefix of a {} file panicked: {}", n, kind, m),
+                J::obj().set("kind", J::s(kind)).set("bytes", J::Str(hex(&bytes[..n]))), Replay::State{ kind : kind.to_string(), bytes : bytes[..n].to_vec(), expect_reject : true, read_chunk : read_chunk as u32 })); } },
+            _ => { if !out.iter().any(|f| f.sig.starts_with("C16:strict-prefix-accepted")) { out.push(found(format!("C16:strict-prefix-accepted:{}", kind), format!("the first {} of {} bytes of a valid {} file were accepted as {:?}", n, bytes.len(), kind, o),
+                J::obj().set("kind", J::s(kind)).set("bytes", J::Str(hex(&bytes[..n]))), Replay::State{ kind : kind.to_string(), bytes : bytes[..n].to_vec(), expect_reject : true, read_chunk : read_chunk as u32 })); } },
+        }
+    }
+
+    // single bit flips: every position of small instances, 256 sampled otherwise
+    let total_bits = bytes.len() * 8;
+    let positions : Vec<usize> = if bytes.len() <= 400 { (0..total_bits).collect() } else { (0..256).map(|_| rng.below(total_bits as u64) as usize).collect() };
+    if bytes.len() <= 400 { stats.inc("c16.instances_with_exhaustive_bit_flips"); }
+    for bit in positions
+    {
+        let mut b = bytes.clone();
+        b[bit / 8] ^= 1 << (bit % 8);
+        let o = read_back(kind, &w, &b, hist.as_ref(), table.as_ref(), &garbage_rule);
+        cell("bitflip", pos_class(bit / 8, bytes.len()), &o, stats);
+        stats.inc("fault.bit_flip_in_state_file");
+        if let ReadOutcome::Panicked(m) = &o
+        {
+            if !out.iter().any(|f| f.sig.starts_with("C16:panic")) { out.push(found(format!("C16:panic:{}", kind), format!("reading a {} file with bit {} flipped panicked: {}", kind, bit, m),
+                J::obj().set("kind", J::s(kind)).set("bytes", J::Str(hex(&b))), Replay::State{ kind : kind.to_string(), bytes : b.clone(), expect_reject : false, read_chunk : read_chunk as u32 })); }
+        }
+    }
+
+    // garbage, including adversarial length prefixes
+    for g in 0..64
+    {
+        let mut b : Vec<u8> = vec![];
+        match g % 4
+        {
+            0 => { b.extend_from_slice(&[0xff; 8]); },
+            1 => { b.extend_from_slice(&((rng.below(300) + 1) as u64).to_le_bytes()); },
+            2 => { b.extend_from_slice(&(u64::MAX / 2).to_le_bytes()); },
+            _ => {},
+        }
+        let n = rng.below(300) as usize;
+        for _ in 0..n { b.push(rng.below(256) as u8); }
+        let o = read_back(kind, &w, &b, None, None, &garbage_rule);
+        cell("garbage", if g % 4 == 3 { "unstructured" } else { "adversarial-length" }, &o, stats);
+        stats.inc("fault.garbage_state_file");
+        if let ReadOutcome::Panicked(m) = &o
+        {
+            if !out.iter().any(|f| f.sig.starts_with("C16:panic")) { out.push(found(format!("C16:panic:{}", kind), format!("reading {} garbage bytes as a {} file panicked: {}", b.len(), kind, m),
+                J::obj().set("kind", J::s(kind)).set("bytes", J::Str(hex(&b))), Replay::State{ kind : kind.to_string(), bytes : b.clone(), expect_reject : false, read_chunk : read_chunk as u32 })); }
+        }
+    }
+    out
+}
+
+pub fn run_one(cfg : &Config, seed : u64, k : u64, stats : &mut Stats) -> Vec<Found>
+{
+    let kind = if k % 2 == 0 { "history" } else { "table" };
+    if k < 3 * cfg.workers
+    {
+        stats.sample(J::obj().set("kind", J::s(kind)).set("instance_seed", J::Str(format!("{}", seed)))
+            .set("faults", J::s("round trip; every strict prefix; single-bit flips (all positions when <= 400 bytes, else 256 sampled); 64 garbage strings")));
+    }
+    stats.inc("runs");
+    stats.inc(&format!("c16.instances.{}", kind));
+    one_instance(kind, seed, true, stats)
+}
